@@ -225,7 +225,15 @@ def feasible(ctx):
     _expect(ctx, "R1.alloc (feasible paths)", c, [], ["alloc_infeasible_good"])
 
 
-ALL = {"progress": progress, "lazyinit": lazyinit, "lanes": lanes, "atomic": atomic, "feasible": feasible, "endian": endian, "units": units, "alloc": alloc, "status": status, "ownership": ownership, "cursor": cursor, "arrays": arrays,
+def widen(ctx):
+    from .rules import widen as wd
+    c = _sub()
+    n = wd.check(c, ["src/controls.c"])
+    ctx.control("R24.narrow-guard finds the control guards", n == 3, str(n))
+    _expect(ctx, "R24.narrow-guard", c, ["narrow_guard_bad"], ["narrow_guard_good"])
+
+
+ALL = {"widen": widen, "progress": progress, "lazyinit": lazyinit, "lanes": lanes, "atomic": atomic, "feasible": feasible, "endian": endian, "units": units, "alloc": alloc, "status": status, "ownership": ownership, "cursor": cursor, "arrays": arrays,
        "recursion": recursion, "narrowing": narrowing, "skeleton": skeleton, "must_pass": must_pass}
 
 
